@@ -14,7 +14,7 @@ git -C /repo worktree add -q --detach "$WT" HEAD || exit 2
 trap 'git -C /repo worktree remove --force "$WT" >/dev/null 2>&1; rm -rf "$WT" "$OUT"' EXIT
 dirs=("$@"); [ ${#dirs[@]} -eq 0 ] && dirs=(/verif/seeded/*/)
 for sd in "${dirs[@]}"; do
-  sd=${sd%/}
+  sd=$(realpath "${sd%/}")
   checks=$(python3 -c "
 import json,re
 m=json.load(open('$sd/meta.json'))
